@@ -353,10 +353,12 @@ class Gen:
             lo = rng.choice([0, 1, 2, 7, 10, 42, 100, 255, 1000, 65536, 10**9, 10**15, 2**53, 2**63, 2**64 - 1,
                              rng.randrange(10**6), rng.randrange(10**18)])
             return ["n", INT_HI, lo, float(lo).hex()]
-        if x < 0.85:
-            v = rng.choice(FLOATS)
+        if x < 0.80:
+            v = rng.choice([f for f in FLOATS if f < 1e16])
+        elif x < 0.85:
+            v = rng.choice([f for f in FLOATS if f >= 1e16])           # positive-exponent reprs (known finding): kept rare
         elif x < 0.93:
-            v = float(f"{rng.randrange(1, 10**rng.randrange(1, 17))}e{rng.randrange(-30, 40)}")
+            v = float(f"{rng.randrange(1, 10**rng.randrange(1, 17))}e{rng.randrange(-30, 12)}")
         else:
             v = rng.randrange(10**9) / rng.choice([8, 10, 100, 1000, 3, 7])
         if v == int(v) and abs(v) < 1e16 and rng.random() < 0.5:
@@ -663,33 +665,91 @@ def independent_ref_text(spec) -> str:
         _, r, ra, c, ca = spec
         return ("$" if ca else "") + col(c) + ("$" if ra else "") + str(r + 1)
     _, r1, r2, c1, c2 = spec
-    a, b = col(c1) + str(r1 + 1), col(c2) + str(r2 + 1)
-    return a if a == b else f"{a}:{b}"
+    return f"{col(c1)}{r1 + 1}:{col(c2)}{r2 + 1}"          # a range node prints as a range even when one cell
 
 
-def first_diff(a, b, path="root"):
+def all_diffs(a, b, path="root", acc=None):
+    """Every position where two canonical trees differ: [(path, expected, read)] (no descent below a shape mismatch)."""
+    acc = [] if acc is None else acc
     if type(a) != type(b) or (isinstance(a, tuple) and (len(a) != len(b))):  # noqa: E721
-        return f"{path}: {a!r} vs {b!r}"[:300]
-    if isinstance(a, tuple):
+        acc.append((path, a, b))
+    elif isinstance(a, tuple):
         for i, (x, y) in enumerate(zip(a, b)):
-            d = first_diff(x, y, f"{path}.{i}")
-            if d:
-                return d
-        return None
-    return None if a == b else f"{path}: {a!r} vs {b!r}"[:300]
+            all_diffs(x, y, f"{path}.{i}", acc)
+    elif a != b:
+        acc.append((path, a, b))
+    return acc
 
 
-def diff_class(d: str) -> str:
+def classify_diffs(exp, got) -> list:
+    """One (signature, text) per distinct signature among the differences."""
+    out = {}
+    for d in all_diffs(exp, got):
+        out.setdefault(diff_class(d), diff_text(d))
+    return sorted(out.items())
+
+
+def diff_text(d) -> str:
+    return f"{d[0]}: {d[1]!r} vs {d[2]!r}"[:300]
+
+
+def diff_class(d) -> str:
     """Short stable signature of a parse-back difference."""
-    if "('num'" in d:
+    _, a, b = d
+    if isinstance(a, Decimal) and isinstance(b, Decimal):
+        # the exact shape of the known number_to_str defect: the stored double's repr is d[.ddd]e+XX and the
+        # text is digits * 10^(XX-1) although the k fraction digits (k != 1) already account for k powers
+        r = repr(float(a))
+        if "e+" in r and Decimal(r) == a:
+            mant, ex = r.split("e")
+            k = len(mant.partition(".")[2])
+            if k != 1 and b == Decimal(int(mant.replace(".", ""))) * (Decimal(10) ** (int(ex) - 1)):
+                return "number-literal-positive-exponent"
         return "number-literal-value"
-    if "('str'" in d:
+    if isinstance(a, str) and isinstance(b, str) and not d[0].endswith(".0"):     # position 0 is the node kind tag
         return "string-literal"
     return "structure"
 
 
+
+
 # ------------------------------------------------------------------ oracle (implementation only)
-def oracle_tree(impl: Impl, case) -> tuple[str, str] | None:
+def as_list(res):
+    """Oracle results are None, one (signature, detail) or a list of them."""
+    if not res or res == "skip":
+        return []
+    return res if isinstance(res, list) else [res]
+
+
+def record(ctx: Ctx, sig: str, case, detail: str, keep=4, impl=None):
+    """Count every failure, keep a few per signature (common.oracle_fail caps the total); kept tree cases are
+    shrunk to the smallest sub-tree failing with the same signature."""
+    key = "oracle_fail_%s_%s" % (case.get("kind", "x"), sig)
+    ctx.dist(key)
+    if ctx.distribution[key] <= keep:
+        if impl is not None and case.get("kind") == "tree":
+            case, detail = shrink(impl, case, sig, detail)
+        ctx.oracle_fail(sig, case, detail)
+
+
+def shrink(impl, case, sig, detail):
+    best, bdet = case, detail
+    progress = True
+    while progress:
+        progress = False
+        for s in sorted(shrink_candidates(best["tree"]), key=lambda x: len(json.dumps(x))):
+            c2 = {**best, "tree": s}
+            try:
+                r2 = [x for x in as_list(oracle_tree(impl, c2)) if x[0] == sig]
+            except Exception:  # noqa: BLE001
+                r2 = []
+            if r2:
+                best, bdet, progress = c2, r2[0][1], True
+                break
+    return best, bdet
+
+
+def oracle_tree(impl: Impl, case):
     """Generated tree -> own post-fix -> real ASTNodeArchives -> real Cell.formula -> independent parse."""
     t, host = case["tree"], tuple(case["host"])
     descs = py_compile(t)
@@ -712,9 +772,9 @@ def oracle_tree(impl: Impl, case) -> tuple[str, str] | None:
     except ParseError as e:
         return ("unparsable", f"{text!r}: {e}")
     exp = expected(t, reftexts, impl.FUNCTION_MAP)
-    d = first_diff(exp, got)
-    if d:
-        return (diff_class(d), f"text {text[:200]!r} reads as a different expression; expected vs read at {d}")
+    ds = classify_diffs(exp, got)
+    if ds:
+        return [(sig, f"text {text[:200]!r} reads as a different expression; expected vs read at {dt}") for sig, dt in ds]
     return None
 
 
@@ -862,9 +922,9 @@ def oracle_fixture_cell(impl: Impl, model, tid, cell, nodes, names) -> tuple[str
         got = parse_text(text, reftexts)
     except ParseError as e:
         return ("unparsable", f"{text[:200]!r}: {e}")
-    d = first_diff(exp, got)
-    if d:
-        return (diff_class(d), f"text {text[:120]!r} reads as a different expression; stored vs read at {d}")
+    ds = classify_diffs(exp, got)
+    if ds:
+        return [(sig, f"text {text[:120]!r} reads as a different expression; stored vs read at {dt}") for sig, dt in ds]
     return None
 
 
@@ -962,7 +1022,7 @@ def trusted(ctx: Ctx):
         "tools/gen_c08.py: reads OPERATOR_PRECEDENCE, NODE_FUNCTION_MAP and FUNCTION_MAP by importing /repo/src (Gen/GenC08.v); the first two are tied in Coq (gen_operator_precedence, gen_node_function_map), FUNCTION_MAP is data of the extracted model (theorems hold for every function-name map)",
         "CPython float repr: NUMBER_NODE carries rep = repr(AST_number_node_number) as data; number_to_str's string surgery on it is modelled, repr itself is not",
         "model.node_to_ref / CellRange.__str__: reference texts are opaque atoms here (C09); the harness passes the text the library computes to the model",
-        "datetime/timedelta: DATE_NODE is modelled on integral seconds with the proleptic Gregorian calendar (civil_from_days), tied by the date stream incl. the year 1/9999 boundaries",
+        "datetime/timedelta: DATE_NODE is modelled on integral seconds with the proleptic Gregorian calendar (civil_from_days, proved to invert the day count for every day: date_literal_denotes), tied to datetime by the date literals of the tree stream incl. the year 1/9999 boundaries",
         "protobuf field access (HasField, defaults) as restated by the f_* accessors of Model/FormulaStack.v",
         "token level vs character level: show_parse is about tokens; that the library's characters lex to those tokens is checked by the independent Python parser of this harness on every rendered text (and by string_literal_scan for quoted literals)",
     ])
@@ -970,7 +1030,7 @@ def trusted(ctx: Ctx):
         "numbers literals are non-negative and finite (Numbers stores the sign as NEGATION_NODE); negative/NaN/inf doubles are outside the tree stream",
         "AST_date_node_dateNum integral (fixture formulas with fractional seconds are skipped and counted)",
         "array literals hold no bare cell reference (Formula.array raises TypeError on one; excluded by `renderable`, exercised by raw_render)",
-        "show_parse: fuel is existentially bounded (monotone beyond the bound); the executable parse with fuel 2*tokens+2 is additionally run on every generated tree",
+        "number literals: faithful only outside the open known finding number-literal-positive-exponent (number_literal_faithful_partial / _refuted)",
     ]
 
 
@@ -1085,14 +1145,14 @@ def run(ctx: Ctx) -> int:
             res = oracle_tree(impl, case)
         except Exception as e:  # noqa: BLE001
             res = ("oracle-crash", f"{type(e).__name__}: {e}")
-        if res:
+        for sig, det in as_list(res):
             tree_failures += 1
-            ctx.oracle_fail(res[0], {"kind": "tree", **case}, res[1])
+            record(ctx, sig, {"kind": "tree", **case}, det, impl=impl)
     # reference atoms: the library's reference text against the independent A1 rendering (plain same-table forms only)
     for case, reftexts in zip(cases, all_reftexts):
         for k, v in reftexts.items():
             if v != independent_ref_text(json.loads(k)):
-                ctx.oracle_fail("reference-text", {"kind": "tree", **case}, f"{k} rendered {v!r}, expected {independent_ref_text(json.loads(k))!r}")
+                record(ctx, "reference-text", {"kind": "tree", **case}, f"{k} rendered {v!r}, expected {independent_ref_text(json.loads(k))!r}")
 
     # 2c. raw node arrays
     nraw = 4000 if quick else 30000
@@ -1162,8 +1222,8 @@ def run(ctx: Ctx) -> int:
                         res = oracle_fixture_cell(impl, model, tid, cell, nodes, names)
                         if res == "skip":
                             skipped_oracle += 1
-                        elif res:
-                            ctx.oracle_fail(res[0], ident, res[1])
+                        for sig, det in as_list(res):
+                            record(ctx, sig, ident, det)
     ctx.distribution["fixture_formula_cells"] = fx_total
     ctx.distribution["fixture_cells_outside_model"] = skipped_model
     ctx.distribution["fixture_cells_outside_oracle_grammar"] = skipped_oracle
@@ -1234,22 +1294,14 @@ def search(ctx: Ctx, broken) -> list:
             res = oracle_tree(impl, c)
         except Exception as e:  # noqa: BLE001
             res = ("oracle-crash", f"{type(e).__name__}: {e}")
-        if res and res[0] not in seen:
-            seen.add(res[0])
-            # shrink: smallest failing sub-tree with the same signature
-            best = c
-            for s in sorted(shrink_candidates(c["tree"]), key=lambda x: len(json.dumps(x))):
-                c2 = {"tree": s, "host": c["host"]}
-                try:
-                    r2 = oracle_tree(impl, c2)
-                except Exception:  # noqa: BLE001
-                    r2 = None
-                if r2 and r2[0] == res[0]:
-                    best, res = c2, r2
-                    break
-            found.append((res[0], {"kind": "tree", **best}, res[1]))
-            if len(found) > 10:
-                break
+        for sig, det in as_list(res):
+            if sig in seen:
+                continue
+            seen.add(sig)
+            best, det = shrink(impl, c, sig, det)
+            found.append((sig, {"kind": "tree", **best}, det))
+        if len(found) > 10:
+            break
     return found
 
 
@@ -1267,10 +1319,10 @@ def replay(path: str) -> int:
             model, tid = table._model, table._table_id
             nodes = model.formula_ast(tid)[cell._formula_id]
             res = oracle_fixture_cell(impl, model, tid, cell, nodes, impl.type_names)
-            if res == "skip":
-                res = None
+        known = {k["signature"] for k in common.load_known() if k["property"] == PROP and k.get("status") == "open"}
+        res = [x for x in as_list(res) if x[0] == d.get("signature") or x[0] not in known]
         if res:
-            print(f"replay: still failing [{res[0]}]: {res[1]}")
+            print(f"replay: still failing [{res[0][0]}]: {res[0][1]}")
             print(f"VIOLATION property={PROP} replay={path}")
             return 1
         print("replay: case passes on the current tree")
